@@ -285,7 +285,7 @@ Lemma lsorted_ext {A} (a b : list (level * A)) :
   lsorted a -> lsorted b -> (forall k, llookup k a = llookup k b) -> a = b.
 Proof.
   intros Sa Sb H. eapply gsorted_ext with (eqb := level_eqb) (ltb := level_ltb); try side.
-  intros k. rewrite <- !llookup_g. apply H.
+  all: intros k; rewrite <- !llookup_g; apply H.
 Qed.
 
 Lemma linsert_below {A} k (v : A) l :
@@ -334,7 +334,7 @@ Lemma usorted_ext {A} (a b : list (nat * A)) :
   usorted a -> usorted b -> (forall k, ulookup k a = ulookup k b) -> a = b.
 Proof.
   intros Sa Sb H. eapply gsorted_ext with (eqb := Nat.eqb) (ltb := Nat.ltb); try nside.
-  intros k. rewrite <- !ulookup_g. apply H.
+  all: intros k; rewrite <- !ulookup_g; apply H.
 Qed.
 
 Lemma usorted_nil {A} : usorted (@nil (nat * A)).
@@ -359,7 +359,7 @@ Proof.
   induction s as [|y r IH]; cbn [set_add In].
   - intros [<-|[]]. now left.
   - destruct (level_eqb k y) eqn:E; [tauto|].
-    destruct (level_ltb k y); cbn [In]; [tauto|].
+    destruct (level_ltb k y); cbn [In]; [intuition auto|].
     intros [<-|H]; [tauto|]. destruct (IH H); tauto.
 Qed.
 
